@@ -12,7 +12,8 @@ root = os.path.dirname(os.path.dirname(os.path.abspath(__file__)))
 stag = os.path.join(root, "seeded_staging")
 out = os.path.join(root, "seeded")
 ROUNDS = [("seeded_staging", "seed_confirm.jsonl", {"a": "a", "b": "b", "c": "c"}, 1),
-          ("seeded_staging2", "seed_confirm2.jsonl", {"a": "d", "b": "e", "c": "f"}, 2)]
+          ("seeded_staging2", "seed_confirm2.jsonl", {"a": "d", "b": "e", "c": "f"}, 2),
+          ("seeded_staging3", "seed_confirm3.jsonl", {"a": "g", "b": "h"}, 3)]
 confirm = {}
 for stg, cf, letters, rnd in ROUNDS:
     path = os.path.join(root, "tools", cf)
